@@ -263,7 +263,7 @@ pub fn generate(prop: &str, seed: u64, run: u64) -> Option<Script> {
         "C19" => Some(zst_scn::gen_zst(seed, run)),
         "C01io" | "C02io" | "C04io" | "C06io" | "C10io" | "C09io" | "C11io" | "C13io" | "C17io" | "C18io" | "C20io" => Some(io_scn::gen_io(seed, prop, run)),
         "C10zst" => Some(zst_scn::gen_zst_for(seed, run, true)),
-        "C01zst" | "C03zst" | "C02zst" | "C07zst" | "C08zst" | "C09zst" | "C11zst" | "C12zst" | "C13zst" | "C17zst" | "C18zst" => Some(zst_scn::gen_zst(seed, run)),
+        "C01zst" | "C03zst" | "C06zst" | "C02zst" | "C07zst" | "C08zst" | "C09zst" | "C11zst" | "C12zst" | "C13zst" | "C17zst" | "C18zst" => Some(zst_scn::gen_zst(seed, run)),
         _ => gen::profile(prop).map(|p| gen::gen_deque(seed, &p, run)),
     }
 }
